@@ -270,7 +270,8 @@ Definition file_blocks (fl : file) : list (list N) :=
 Definition resp_write_file (c : cfg) (h : head) (r : resp) (fl : file) (fs : list fault)
   : option exn * resp * list fault * list ev :=
   if c_sendfile c && f_fileno fl then
-    let nbytes := match r_clen r with Some L => L | None => len (f_avail fl) end in
+    (* what is left of the declared length after write() calls (negative: nothing) / the rest of the file *)
+    let nbytes := match r_clen r with Some L => L - r_sent r | None => len (f_avail fl) end in
     let '(x, r1, fs1, e1) := send_headers h r fs in
     match x with
     | Some e => (Some e, r1, fs1, e1)
@@ -571,8 +572,9 @@ Fixpoint conn_loop (w : wkind) (c : cfg) (st : wst) (ps : list pout) (apps : lis
 Definition bump_conns (st : wst) (d : Z) : wst :=
   {| w_nr := w_nr st; w_alive := w_alive st; w_keep := w_keep st; w_conns := (w_conns st + d)%Z |}.
 
-(* gthread only: an exception that is not an Exception leaves the pool thread through finish_request's
-   `fs.result()`; the connection is then neither closed nor discounted. *)
+(* gthread only: an Exception leaving handle() (the unprotected close() of the SSL-EOF branch) is contained by
+   finish_request; an exception that is not an Exception leaves the pool thread through finish_request's
+   `fs.result()`, and the connection is then neither closed nor discounted. *)
 Definition connection (w : wkind) (c : cfg) (st : wst) (ps : list pout) (apps : list app) (fs : list fault) : result :=
   match w with
   | WSync =>
@@ -589,7 +591,7 @@ Definition connection (w : wkind) (c : cfg) (st : wst) (ps : list pout) (apps : 
       let '(x, st1, fs1, e1) := conn_loop WGthread c st0 ps apps fs in
       match x with
       | Some e => if is_exception (x_cls e)
-                  then finish x (bump_conns st1 (-1)) fs1 e1       (* except Exception: nr_conns -= 1; conn.close() *)
+                  then finish None (bump_conns st1 (-1)) fs1 e1    (* finish_request: except Exception: nr_conns -= 1; conn.close() *)
                   else {| o_trace := e1; o_escaped := x; o_st := st1 |}
       | None => finish None (bump_conns st1 (-1)) fs1 e1
       end
